@@ -2,6 +2,7 @@
 
 A model is a JSON-serialisable dict (Appendix B of DESIGN.md).  `build(rng, **knobs)` draws one;
 families (see families.py) are knob presets that switch on the dimensions a property depends on."""
+import json
 import math
 import random
 
@@ -658,6 +659,32 @@ def tie_values(model, rng):
             layer["contours"] = [dedupe(c) for c in layer["contours"]]
             for comp in layer["components"]:
                 comp["xform"][4], comp["xform"][5] = snap(comp["xform"][4]), snap(comp["xform"][5])
+    return model
+
+
+def reuse_default_source(model, rng):
+    """The default master's UFO listed a second time, at another location on the first axis (a design that does not change
+    along part of an axis): the same glif files then belong to two sources, one of them not the default."""
+    full = [m for m in model["masters"] if m["layer"] is None]
+    if not model["axes"] or not full:
+        return model
+    a = model["axes"][0]
+    lo, df, hi = design_bounds(a)
+    taken = {m["design_loc"][a["tag"]] for m in model["masters"] if all(m["design_loc"][t] == full[0]["design_loc"][t] for t in m["design_loc"] if t != a["tag"])}
+    cands = [v for v in (round((df + hi) / 2), round((df + lo) / 2)) if v not in taken and lo <= v <= hi]
+    if not cands:
+        return model
+    loc = dict(full[0]["design_loc"])
+    loc[a["tag"]] = cands[0]
+    dup = dict(full[0], name="Dup", design_loc=loc, reuses_default_ufo=True, kerning=dict(full[0]["kerning"]), groups=dict(full[0]["groups"]))
+    model["masters"].append(dup)
+    for g in model["glyphs"]:
+        if full[0]["name"] in g["layers"]:
+            g["layers"]["Dup"] = json.loads(json.dumps(g["layers"][full[0]["name"]]))
+        # the other masters disagree about codepoints (none, or one the default does not have): the default master decides
+        for m in full[1:]:
+            if m["name"] in g["layers"] and g.get("unicodes"):
+                g["layers"][m["name"]]["_unicodes"] = [] if rng.random() < 0.5 else [0xE000 + rng.randrange(0x100)]
     return model
 
 
